@@ -120,6 +120,7 @@ let () =
     (fun k -> let i = int_of_nat k in if i < nobj then a.(i) else fresh) in
   let st = ref (tabulate (ninit vzero vdef)) in
   let obj i = !st (nat_of_int i) in
+  let ptr_tok = ref "" in
   let toks = ref [] in
   let next () = match !toks with [] -> failwith "short line" | x :: r -> toks := r; x in
   let zi () = z_of_int (int_of_string (next ())) in
@@ -179,6 +180,7 @@ let () =
               | "fmax" -> OGetFmax
               | "getfv" -> OGetFreqVec
               | "setfv" -> OSetFreqVec (zl ())
+              | "setfvself" -> OSetFreqVec ((observe (obj i)).ob_fv)
               | "getcell" -> let f = zi () in let r = zi () in let c = zi () in OGetCell (f, r, c)
               | "setcell" -> let f = zi () in let r = zi () in let c = zi () in let x = v () in OSetCell (f, r, c, x)
               | "getmat" -> OGetMatrix (zi ())
@@ -202,6 +204,11 @@ let () =
               | "setfprec" -> OSetFprec (zi ())
               | "setdprec" -> OSetDprec (zi ())
               | _ -> failwith ("unknown op " ^ name)) in
+            (* the four pointer getters: is the pointer the library returns NULL (allocation 0)? *)
+            (match o with
+             | OGetFreqVec | OGetMatrix _ | OGetZ0Vec | OGetFz0Vec _ ->
+               ptr_tok := (if ptr_null (obj i) o then " @N" else " @P")
+             | _ -> ());
             ([NOn (nat_of_int i, o)], i)
           end in
         let r = List.fold_left (fun _ m ->
@@ -209,7 +216,9 @@ let () =
             st := tabulate s'; r) { o_ret = ROk; o_cb = O; o_pay = PNone } mops in
         let rs = (match r.o_ret with ROk -> "ok" | RFail -> "fail" | RFault -> "fault") in
         let es = (match r.o_ret with RFail -> "EINVAL" | _ -> "0") in
-        Printf.printf "R %s %s %d %s\n" rs es (int_of_nat r.o_cb) (payload r.o_pay);
+        let tok = (match r.o_ret with ROk -> !ptr_tok | _ -> "") in
+        ptr_tok := "";
+        Printf.printf "R %s %s %d %s%s\n" rs es (int_of_nat r.o_cb) (payload r.o_pay) tok;
         Printf.printf "%s\n" (digest target (obj target))
       end
     done
